@@ -261,8 +261,8 @@ func init() {
 					}
 				}
 				c10Existing = nil
-				emitWrap(fileOpts, 3, payload, valid, false)
-				c.Count("wrap:dest=same-path")
+				emitWrap(fileOpts, pick(r, []uint64{3, 3, 5, 6}), payload, valid, false)
+				c.Count("wrap:dest=same-file")
 				emitWrap(randOpts(fileSeek), 4, payload, valid, nt)
 			}
 
@@ -272,7 +272,7 @@ func init() {
 					VL{VT("absent")},
 					VL{VT("file"), VB(r.Bytes(dsize + 1 + pick(r, []int{0, 0, 1, r.Intn(dsize + 64)})))}, // larger (often by exactly one byte)
 					VL{VT("file"), VB(r.Bytes(pick(r, []int{dsize, dsize - 1, 0, r.Intn(dsize + 1)})))},  // not larger (often exactly as long)
-					VL{VT("same")},
+					VL{VT(pick(r, []string{"same", "same", "symlink", "hardlink", "unclean", "relative"}))},
 				}
 			}
 			emitExtract := func(o xOpts, f []byte, dest Val, expect Val, nontrivial bool) {
@@ -358,7 +358,7 @@ func init() {
 			}
 
 			// ---------------- round trip ----------------
-			for di, d := range []Val{VL{VT("same")}, VL{VT("absent")}, VL{VT("file"), VB(r.Bytes(len(payload) + 1 + pick(r, []int{0, 59, r.Intn(3000)})))}} {
+			for di, d := range []Val{VL{VT(pick(r, []string{"same", "symlink", "hardlink", "unclean", "relative"}))}, VL{VT("absent")}, VL{VT("file"), VB(r.Bytes(len(payload) + 1 + pick(r, []int{0, 59, r.Intn(3000)})))}} {
 				if huge && di > 0 {
 					break
 				}
@@ -443,6 +443,72 @@ func init() {
 				}
 				emitReplace(o, ct.file, nr, exp2, differs)
 				c.Count("replace:v2")
+			}
+
+			// ---------------- attach index ----------------
+			if !huge && index != nil && !c10Stuck {
+				ct := conts[0]
+				flen := uint64(len(ct.file))
+				end := ct.doff + ct.dsize
+				emitAttach := func(f Val, off uint64, expect Val, nontrivial bool) {
+					if c10Stuck {
+						return
+					}
+					in := VL{f, VB(index), VN(off), expect}
+					obs := runAttachImpl(c, f, index, off)
+					c.Emit("xattach", in, obs, nontrivial)
+					c.Count("attach:result=" + string(obs.(VL)[0].(VT)))
+				}
+				win := VL{VT("window"), VN(ct.doff), VN(ct.dsize)}
+				cf := VL{VT("file"), VB(ct.file)}
+				for _, off := range []uint64{end, flen, flen + uint64(1+r.Intn(40)), end + uint64(r.Intn(int(flen-end)+1))} {
+					emitAttach(cf, off, win, true)
+				}
+				emitAttach(cf, ct.doff+uint64(r.Intn(int(ct.dsize))), none, false)  // into the payload: the caller's mistake
+				emitAttach(cf, pick(r, []uint64{1 << 63, 1<<64 - 1}), none, false)   // negative as int64
+				emitAttach(VL{VT("file"), VB(payload)}, uint64(len(payload)), none, false)
+				emitAttach(VL{VT("absent")}, uint64(r.Intn(30)), none, false)
+				c.CountN("attach:cases", 8)
+			}
+
+			// ---------------- sequences of transforms on one file ----------------
+			if !huge && !c10Stuck {
+				farOff := uint64(len(payload) + 6*(51+len(index)) + 64)
+				for q := 0; q < 3; q++ {
+					n := 1 + r.Intn(5)
+					ops := VL{}
+					for k := 0; k < n; k++ {
+						o := fileOpts
+						switch r.Intn(7) {
+						case 0, 1:
+							o.storeID = r.Chance(30)
+							o.codec = pick(r, []uint64{0, 0x0400, 0x0401})
+							ops = append(ops, VL{VT("wrap"), o.val()})
+							c.Count("seq:op=wrap")
+						case 2, 3:
+							ops = append(ops, VL{VT("extract"), o.val()})
+							c.Count("seq:op=extract")
+						case 4, 5:
+							nr := pick(r, repl)
+							ops = append(ops, VL{VT("replace"), o.val(), rootsVal(nr)})
+							c.Count("seq:op=replace")
+						default:
+							if index == nil {
+								continue
+							}
+							off := farOff
+							if r.Chance(15) {
+								off = uint64(r.Intn(len(payload) + 100))
+							}
+							ops = append(ops, VL{VT("attach"), VB(index), VN(off)})
+							c.Count("seq:op=attach")
+						}
+					}
+					in := VL{VB(payload), ops, tabFor(payload, true), VN(chunkFor(r, 4*len(payload))), VL{VT("blocks"), blksVal(blks)}}
+					obs := runSeqImpl(c, payload, ops)
+					c.Emit("xseq", in, obs, nt && len(ops) > 1)
+					c.Count("seq:length=" + string(rune('0'+len(ops))))
+				}
 			}
 
 			// ---------------- malformed stream ----------------
@@ -643,6 +709,16 @@ func init() {
 		c.Emit("xextract", VL{o.val(), VB(over), larger, VL{}, VL{VT("short")}, VN(3)}, runExtractImpl(c, o, over, larger), true)
 		// the CARv2 as the SOURCE of WrapV1: the whole file is wrapped, the index is the inner payload's
 		c.Emit("xwrap", VL{o.val(), VN(0), VB(ct.file), VL{}, VL{VT("carv2"), cidsVal(roots), blksVal(blks)}}, runWrapImpl(c, o, 0, ct.file, nil), true)
+		// in place through an alias of the source
+		c.Emit("xextract", VL{o.val(), VB(ct.file), VL{VT("hardlink")}, VL{}, win, VN(7)}, runExtractImpl(c, o, ct.file, VL{VT("hardlink")}), true)
+		// AttachIndex at the end of the container
+		c.Emit("xattach", VL{VL{VT("file"), VB(ct.file)}, VB(index), VN(uint64(len(ct.file))), win}, runAttachImpl(c, VL{VT("file"), VB(ct.file)}, index, uint64(len(ct.file))), true)
+		// a sequence: wrap, replace roots (same size), attach far behind, wrap again, extract twice
+		{
+			ops := VL{VL{VT("wrap"), o.val()}, VL{VT("replace"), o.val(), rootsVal([]cid.Cid{c2})},
+				VL{VT("attach"), VB(index), VN(600)}, VL{VT("wrap"), o.val()}, VL{VT("extract"), o.val()}, VL{VT("extract"), o.val()}}
+			c.Emit("xseq", VL{VB(payload), ops, VL{}, VN(7), VL{VT("blocks"), blksVal(blks)}}, runSeqImpl(c, payload, ops), true)
+		}
 		// round trip
 		for _, d := range []Val{VL{VT("same")}, larger} {
 			in := VL{o.val(), VB(payload), d, VL{}, VN(5)}
